@@ -15,7 +15,7 @@ git -C $WT apply $M/patch.diff || { echo "patch does not apply"; exit 3; }
 (cd $WT && go build ./... >$OUT/build_with.log 2>&1); B=$?
 (cd $WT && go test -vet=off -count=1 -run "$RX" ./$PKG/ >$OUT/demo_with.log 2>&1); C=$?
 rm $WT/$PKG/zz_demo_test.go
-(cd $WT && go test -vet=off -count=1 ./$PKG/... "$@" >$OUT/existing_tests_with.log 2>&1); D=$?
+(cd $WT && go test -vet=off -count=1 ./$PKG/ "$@" >$OUT/existing_tests_with.log 2>&1); D=$?
 git -C $WT checkout -q -- . ; git -C $WT clean -fdq
 echo "demo_without=$A (want 0) build_with=$B (want 0) demo_with=$C (want !=0) existing_tests_with=$D (want 0)"
 git -C /repo apply $M/patch.diff || { echo "patch does not apply to /repo"; exit 3; }
